@@ -78,6 +78,19 @@ def body_factory(tier, known):
         placed_jobs = 0
         stop = False
         pending_delete = []
+        if data.draw(st.integers(0, 2), label='directed_create') == 0:
+            # a create-branch job that is certain to publish its branch
+            # (a new last development branch), with the racing placements
+            import re as _re
+            vs = [tuple(int(x) for x in m.group(1).split('.'))
+                  for m in (_re.match(r'development/(\d+(?:\.\d+)?)$', b)
+                            for b in hist.world.heads()) if m]
+            if vs:
+                pending_delete.append({
+                    'op': 'admin', 'kind': 'create_branch',
+                    'args': {'branch': 'development/%d.0' % (
+                        max(v[0] for v in vs) + 1)}})
+                hist.flags.add('c08_directed_create')
         while len(hist.steps) < n + 40 * placed_jobs and not stop and \
                 len(hist.steps) < 400:
             drawn = [pending_delete.pop()] if pending_delete else \
@@ -106,6 +119,14 @@ def body_factory(tier, known):
                                     act['pr'] = pr
                                 hist.apply({'op': 'placed', 'job': step,
                                             'push': k, 'action': act})
+                            if step.get('kind') == 'create_branch':
+                                # the same name created by somebody else
+                                # right before the job publishes it
+                                hist.apply({'op': 'placed', 'job': step,
+                                            'push': k, 'action': {
+                                                'kind': 'new_branch',
+                                                'name': step['args'][
+                                                    'branch']}})
                             if step.get('kind') == 'delete_branch':
                                 # a racing tag with the archive-tag name
                                 ver = step['args']['branch'].split('/')[-1]
